@@ -3,7 +3,7 @@
 
   A pure language cannot mutate, so storage and aliasing are modelled explicitly:
 
-  (1) **Effect summaries.**  Every numpy array has an identity (`ArrId`).  A data set object exposes
+  (1) **Effect summaries.**  Every numpy array has an identity (`Nat`).  A data set object exposes
       *slots* (points, connectivity per cell type, point/cell field values); a slot either hands out a
       **stored** array (the caller receives the object's own storage — `Mesh.points`, `as_array`) or is
       **computed** on every access (fancy indexing of a `PermutedMesh` / `TransformedMeshFields` returns a
@@ -24,12 +24,12 @@
 import FcModel.Predicates
 namespace Fc
 
-abbrev ArrId := Nat
+-- array identities are natural numbers (`Nat` in the comments)
 
 /-! ## (1) objects, slots, world -/
 
 inductive Slot where
-  | stored (i : ArrId)     -- the object hands out its own storage
+  | stored (i : Nat)     -- the object hands out its own storage
   | computed               -- a new array on every access
 deriving Repr, DecidableEq
 
@@ -54,40 +54,40 @@ structure EObj where
   pf : List EField
   cf : List ECellField
   /-- stored arrays that computed slots are computed from (reads on access) -/
-  deps : List ArrId
+  deps : List Nat
 deriving Repr, DecidableEq
 
-def Slot.ids : Slot → List ArrId
+def Slot.ids : Slot → List Nat
   | .stored i => [i]
   | .computed => []
 
 /-- identities of the arrays an object hands out -/
-def EObj.storedIds (o : EObj) : List ArrId :=
+def EObj.storedIds (o : EObj) : List Nat :=
   o.points.ids ++ o.conn.flatMap (·.2.ids) ++ o.pf.flatMap (·.slot.ids) ++ o.cf.flatMap (·.slot.ids)
 
 /-- every array reachable from the object (read when it is used) -/
-def EObj.reach (o : EObj) : List ArrId := o.storedIds ++ o.deps
+def EObj.reach (o : EObj) : List Nat := o.storedIds ++ o.deps
 
 structure World where
-  next : ArrId                    -- allocation counter: identities `< next` exist
+  next : Nat                    -- allocation counter: identities `< next` exist
   objs : List EObj                -- the pool; operations refer to objects by index
-  written : List ArrId            -- every identity written so far
+  written : List Nat            -- every identity written so far
   files : Nat                     -- number of files created so far (each one explicitly requested)
 deriving Repr
 
-def World.reachable (w : World) : List ArrId := w.objs.flatMap EObj.reach
+def World.reachable (w : World) : List Nat := w.objs.flatMap EObj.reach
 
 /-- allocate `k` new arrays -/
-def World.alloc (w : World) (k : Nat) : World × List ArrId :=
+def World.alloc (w : World) (k : Nat) : World × List Nat :=
   ({ w with next := w.next + k }, List.range' w.next k)
 
 /-- what one access to a slot returns: the stored array, or a newly allocated one.
     Returns the array and whether it is new. -/
-def World.access (w : World) : Slot → World × ArrId
+def World.access (w : World) : Slot → World × Nat
   | .stored i => (w, i)
   | .computed => ({ w with next := w.next + 1 }, w.next)
 
-def accessMany {α} (w : World) (slotOf : α → Slot) (mk : α → ArrId → α) : List α → World × List α
+def accessMany {α} (w : World) (slotOf : α → Slot) (mk : α → Nat → α) : List α → World × List α
   | [] => (w, [])
   | x :: xs =>
     let (w1, i) := w.access (slotOf x)
@@ -95,11 +95,39 @@ def accessMany {α} (w : World) (slotOf : α → Slot) (mk : α → ArrId → α
     (w2, mk x i :: r)
 
 /-- allocate one new stored array per list element -/
-def freshMany {α} (w : World) (mk : α → ArrId → α) : List α → World × List α
+def freshMany {α} (w : World) (mk : α → Nat → α) : List α → World × List α
   | [] => (w, [])
   | x :: xs =>
     let (w2, r) := freshMany { w with next := w.next + 1 } mk xs
     (w2, mk x w.next :: r)
+
+/-- `extend_space_dimension_to` on a list of fields: a field whose entry shape is smaller than the target
+    gets a new zero-padded array (allocated and written by slice assignment); the others are handed on.
+    Returns the world, the new fields and the arrays that were allocated-and-written. -/
+def extendMany {α} (n : Nat) (tailOf : α → List Nat) (slotOf : α → Slot) (mk : α → List Nat → Nat → α)
+    (grows : List Nat → Bool) (w : World) : List α → World × List α × List Nat
+  | [] => (w, [], [])
+  | f :: fs =>
+    if grows (tailOf f) then
+      let r := extendMany n tailOf slotOf mk grows { w with next := w.next + 1 } fs
+      (r.1, mk f ((tailOf f).map fun _ => n) w.next :: r.2.1, w.next :: r.2.2)
+    else
+      let a := w.access (slotOf f)
+      let r := extendMany n tailOf slotOf mk grows a.1 fs
+      (r.1, mk f (tailOf f) a.2 :: r.2.1, r.2.2)
+
+/-- `_merge` on the cell fields: concatenated (new array) where both pieces carry the field on that cell type,
+    otherwise the one piece's own array is handed on -/
+def mergeMany {α} (slotOf : α → Slot) (mk : α → Nat → α) (both : α → Bool) (w : World) : List α → World × List α
+  | [] => (w, [])
+  | f :: fs =>
+    if both f then
+      let r := mergeMany slotOf mk both { w with next := w.next + 1 } fs
+      (r.1, mk f w.next :: r.2)
+    else
+      let a := w.access (slotOf f)
+      let r := mergeMany slotOf mk both a.1 fs
+      (r.1, mk f a.2 :: r.2)
 
 inductive ViewKind where
   | sort | sortPoints | sortCells | strip
@@ -133,9 +161,9 @@ structure EStep where
 deriving Repr, DecidableEq
 
 structure Effect where
-  reads : List ArrId
-  writes : List ArrId
-  fresh : List ArrId
+  reads : List Nat
+  writes : List Nat
+  fresh : List Nat
   /-- `some (.inl k)`: the operation returned pool object `k` itself; `some (.inr o)`: a new object -/
   result : Option (Nat ⊕ EObj)
   filesCreated : Nat
@@ -205,7 +233,7 @@ def operands : EOp → List Nat
 
 /-- result object of an operation that succeeded, built in world `w` (allocating what the code
     allocates); also returns the additional arrays written because they are results filled in place -/
-def resultOf (w : World) : EOp → World × Option (Nat ⊕ EObj) × List ArrId
+def resultOf (w : World) : EOp → World × Option (Nat ⊕ EObj) × List Nat
   | .compare _ _ => (w, none, [])
   | .equals _ _ => (w, none, [])
   | .predEval _ _ => (w, none, [])
@@ -246,24 +274,9 @@ def resultOf (w : World) : EOp → World × Option (Nat ⊕ EObj) × List ArrId
       -- new Mesh with zero-padded points (allocated, written by slice assignment); connectivity as handed out
       let (w1, pts) := w.alloc 1
       let (w2, conn) := accessMany w1 (·.2) (fun c i => (c.1, Slot.stored i)) m.conn
-      let stepF : World × List EField × List ArrId → EField → World × List EField × List ArrId :=
-        fun (acc : World × List EField × List ArrId) f =>
-          if (extendsField n f.tail).getD false then
-            (({ acc.1 with next := acc.1.next + 1 } : World), acc.2.1 ++ [{ f with tail := f.tail.map (fun _ => n), slot := .stored acc.1.next }],
-              acc.2.2 ++ [acc.1.next])
-          else
-            let (w', i) := acc.1.access f.slot
-            (w', acc.2.1 ++ [{ f with slot := .stored i }], acc.2.2)
-      let (w3, pf, wr1) := m.pf.foldl stepF (w2, [], [])
-      let stepC : World × List ECellField × List ArrId → ECellField → World × List ECellField × List ArrId :=
-        fun (acc : World × List ECellField × List ArrId) f =>
-          if (extendsField n f.tail).getD false then
-            (({ acc.1 with next := acc.1.next + 1 } : World), acc.2.1 ++ [{ f with tail := f.tail.map (fun _ => n), slot := .stored acc.1.next }],
-              acc.2.2 ++ [acc.1.next])
-          else
-            let (w', i) := acc.1.access f.slot
-            (w', acc.2.1 ++ [{ f with slot := .stored i }], acc.2.2)
-      let (w4, cf, wr2) := m.cf.foldl stepC (w3, [], [])
+      let grows : List Nat → Bool := fun t => (extendsField n t).getD false
+      let (w3, pf, wr1) := extendMany n (·.tail) (·.slot) (fun (f : EField) t i => { f with tail := t, slot := .stored i }) grows w2 m.pf
+      let (w4, cf, wr2) := extendMany n (·.tail) (·.slot) (fun (f : ECellField) t i => { f with tail := t, slot := .stored i }) grows w3 m.cf
       (w4, some (.inr ⟨n, .stored (pts.headD 0), conn, pf, cf, []⟩), pts ++ wr1 ++ wr2)
   | .merge a b allDup =>
     if allDup then (w, some (.inl a), [])
@@ -279,16 +292,9 @@ def resultOf (w : World) : EOp → World × Option (Nat ⊕ EObj) × List ArrId
       let (w3, pf) := freshMany w2 (fun f i => { f with slot := .stored i }) pnames
       -- cell fields: concatenated (new) if both sides carry (name, type); otherwise the one side's array itself
       let cnames : List ECellField := m1.cf ++ m2.cf.filter (fun f => !(m1.cf.any fun g => g.name == f.name && g.ctype == f.ctype))
-      let stepC : World × List ECellField → ECellField → World × List ECellField :=
-        fun (acc : World × List ECellField) f =>
-          let in1 := m1.cf.any fun g => g.name == f.name && g.ctype == f.ctype
-          let in2 := m2.cf.any fun g => g.name == f.name && g.ctype == f.ctype
-          if in1 && in2 then
-            (({ acc.1 with next := acc.1.next + 1 } : World), acc.2 ++ [{ f with slot := .stored acc.1.next }])
-          else
-            let (w', i) := acc.1.access f.slot
-            (w', acc.2 ++ [{ f with slot := .stored i }])
-      let (w4, cf) := cnames.foldl stepC (w3, [])
+      let both : ECellField → Bool := fun f =>
+        (m1.cf.any fun g => g.name == f.name && g.ctype == f.ctype) && (m2.cf.any fun g => g.name == f.name && g.ctype == f.ctype)
+      let (w4, cf) := mergeMany (·.slot) (fun (f : ECellField) i => { f with slot := .stored i }) both w3 cnames
       (w4, some (.inr ⟨m1.dim, .stored (pts.headD 0), conn, pf, cf, []⟩), conn.flatMap (·.2.ids))
   | .diff s r =>
     -- `MeshFields(mesh=fields1.domain, …)`: the reference's domain object itself; every field array is new
@@ -330,11 +336,11 @@ def effectsOf (w : World) : List EStep → List Effect
   | s :: r => (stepEffect w s).2 :: effectsOf (stepEffect w s).1 r
 
 /-- identities written by step `e` that existed before the step (`next0` = counter before it) -/
-def Effect.writesToExisting (e : Effect) (next0 : ArrId) : List ArrId := e.writes.filter (· < next0)
+def Effect.writesToExisting (e : Effect) (next0 : Nat) : List Nat := e.writes.filter (· < next0)
 
 /-! ### contents: a heap of array contents, written only where the summaries say -/
 
-abbrev Heap := ArrId → Nat
+abbrev Heap := Nat → Nat
 
 /-- after a step the written arrays hold arbitrary new contents `junk`, all others keep theirs -/
 def heapAfter (h : Heap) (e : Effect) (junk : Heap) : Heap :=
@@ -375,24 +381,27 @@ def resolvedFor (t : Tol) (a b : NdArr) : Option RTol :=
   | _, .flt G => resolveTol G t a b
   | _, _ => resolveTol f64 t a b
 
-/-- one call `p(a, b)`: the verdict, and the object afterwards -/
-def PredObj.call (p : PredObj) (a b : NdArr) : PredObj × Verdict :=
-  let v := verdictOf p.kind p.rel p.abs a b
+/-- the object after one call `p(a, b)`: `_check` stores the resolved tolerances once the shapes agree -/
+def PredObj.remember (p : PredObj) (a b : NdArr) : PredObj :=
   let fuzzyPath := match p.kind with
     | .fuzzy => true
     | .default => a.dtype.hasFloats || b.dtype.hasFloats
     | .exact => false
-  let (s1, s2) := reshapePair a.shape b.shape
-  if fuzzyPath && s1 == s2 then
-    let a' := { a with shape := s1 }
-    let b' := { b with shape := s2 }
+  let sh := reshapePair a.shape b.shape
+  if fuzzyPath && sh.1 == sh.2 then
+    let a' := { a with shape := sh.1 }
+    let b' := { b with shape := sh.2 }
     match resolvedFor p.rel a' b' with
-    | none => (p, v)                                  -- raised before anything was stored
+    | none => p                                  -- `_get_tol` raised before anything was stored
     | some r =>
       match resolvedFor p.abs a' b' with
-      | none => ({ p with lastRel := some r }, v)
-      | some t => ({ p with lastRel := some r, lastAbs := some t }, v)
-  else (p, v)
+      | none => { p with lastRel := some r }
+      | some t => { p with lastRel := some r, lastAbs := some t }
+  else p
+
+/-- one call `p(a, b)`: the object afterwards, and the verdict -/
+def PredObj.call (p : PredObj) (a b : NdArr) : PredObj × Verdict :=
+  (p.remember a b, verdictOf p.kind p.rel p.abs a b)
 
 inductive PredEvent where
   | call (a b : NdArr)
